@@ -387,6 +387,15 @@ def wiring(ctx: Any) -> List[Ob]:
             bad_paths.append(' -> '.join(f'{n.line}' for n, _ in path if n.line))
     obs.append(ob(R, rdy, f'{n_paths} path(s) through the flush', 'every path leaves the queue empty or the flush timer armed (a queued group is never stranded without a timer)', n_paths > 0 and not bad_paths, 'path through lines ' + '; '.join(bad_paths[:3])))
     obs.extend(flush_timer_cancel_obligations(ctx, R))
+    # the flush cannot be cut short between taking the due groups and sending them: the queue is not resized inside a loop that
+    # iterates it (a deque raises RuntimeError on the next step, and the batch just taken is lost)
+    from .c15 import resize_while_iterating
+
+    qcls = prog.cls('zeroconf._handlers.multicast_outgoing_queue.MulticastOutgoingQueue')
+    rz = resize_while_iterating(ctx, R, list(qcls.methods.values()))
+    obs.extend(rz)
+    if not rz:
+        obs.append(ob(R, qcls, 'loops over self.queue', 'no method of the outgoing queue resizes the queue inside a loop that iterates it', True))
     obs.extend(purge_covers_all(ctx, R))
     # TC timer
     hq = prog.func(LS + '.handle_query_or_defer')
